@@ -241,12 +241,7 @@ package resmgr
 //@ iface github.com/containerd/nri/pkg/stub.Stub.UpdateContainers
 //@   modifies pushN, pushed
 //@   ensures pushN == old(pushN) + 1 && pushed == arg0
-//@ assume-contract github.com/containers/nri-plugins/pkg/agent.(*Agent).GoListPodResources
-//@   requires a != nil
-//@   modifies nothing
-//@ assume-contract github.com/containers/nri-plugins/pkg/agent.(*Agent).GoGetPodResources
-//@   requires a != nil
-//@   modifies nothing
+// (*Agent).GoListPodResources / GoGetPodResources: verified in pkg/agent (verif_contracts_podres.go)
 //@ assume-contract github.com/containers/nri-plugins/pkg/agent.(*Agent).PurgePodResources
 //@   requires a != nil
 //@   modifies nothing
